@@ -17,6 +17,18 @@ Lines (tab separated):
   gen.bal     <account/denom> <A> <B>          a balance that differs after the continuation
   gen.balances <accounts> <differing>
   gen.note    <text>
+  gen.mig.begin  <name> <seed>                    a MIGRATION case: A = a state in the current format, B = the identical state after the real
+                                               store migrator ran; the gen.kv / gen.check / gen.op / gen.balances lines that follow are judged
+                                               by migration_keeps:<module>.<prefix> (same keys, same values), migration_continuation:<op>
+  gen.migrate <migrator> ok|err|panic <text>   outcome of the real migrator (migration_runs:<migrator>)
+  gen.field   <module> <field, lower case without _> list|scalars|scalar <records in the richest state> <reason|->
+                                               a top-level field of the module's exported genesis JSON (after the last case)
+  gen.list    <module> <json path> <records in the richest state> <id pairs seen different> <id pairs> <pairs equal in every record|-> <reason|->
+                                               a record list at any depth of the exported genesis
+  gen.msgtype <type url> <accepted> <refused> <reason|->   a registered comdex message type and how often the continuation workload delivered
+                                               it on the original chain (BAD if never accepted and no reason is given)
+  gen.coverage <module>                        all gen.field lines sent: every `genFields` entry of the regenerated table must have been
+                                               reported, record lists non-empty in at least one state (BAD otherwise: a hole in the fixture)
 
 For `gen.check` the keys are attributed to the prefixes of the regenerated table (`Comdex.Gen.Genesis`), the model's
 `init ∘ export` is run on A's store with the extracted rules and compared with B's store (DIFF = the model does not describe what
@@ -47,6 +59,8 @@ structure St where
   nA : Nat := 0
   nB : Nat := 0
   seen : List (String × String) := []   -- (module, first byte) already checked
+  mig : Bool := false                   -- a migration case (`gen.mig.begin`): B = the same state after the real migrator ran
+  fields : List (String × String × String × Nat × String) := []   -- population report: (module, field, kind, max records, reason)
 
 def init : St := {}
 
@@ -131,9 +145,10 @@ def checkModule (st : St) (seq : String) (m : Module) (byte : String) : List Str
     let eq := samePrefix a b p
     let modelEq := samePrefix pred b p
     let unspecified := (unspecifiedOf m).contains p || p.startsWith "?"
-    let name := if isCounterPfx m p then s!"counter_roundtrip:{m.name}.{counterTag m p}" else s!"store_roundtrip:{m.name}.{p}"
+    let name := if st.mig then s!"migration_keeps:{m.name}.{p}"
+      else if isCounterPfx m p then s!"counter_roundtrip:{m.name}.{counterTag m p}" else s!"store_roundtrip:{m.name}.{p}"
     (if eq then [] else [s!"MON\t{seq}\t{name}\tkeysA={countPfx a p}\tkeysB={countPfx b p}"]) ++
-    (if modelEq || unspecified then [] else
+    (if modelEq || unspecified || st.mig then [] else
       [s!"DIFF\t{seq}\t{m.name}/{p}\tmodel init(export A) has {countPfx pred p} keys, re-imported store has {countPfx b p}, and they do not answer alike"]) ++
     (if p.startsWith "?" then [s!"DIFF\t{seq}\t{m.name}/{p}\tkey outside every declared prefix of the regenerated table"] else [])
 
@@ -142,11 +157,30 @@ def checkParams (st : St) (seq : String) (mod : String) : List String :=
   let a := side "A"
   let b := side "B"
   if a.all (fun x => b.contains x) && b.all (fun x => a.contains x) then []
-  else [s!"MON\t{seq}\tstore_roundtrip:{mod}.params\tkeysA={a.length}\tkeysB={b.length}"]
+  else [s!"MON\t{seq}\t{if st.mig then "migration_keeps" else "store_roundtrip"}:{mod}.params\tkeysA={a.length}\tkeysB={b.length}"]
 
 def handle (st : St) (seq : String) (f : List String) : St × List String :=
   match f with
-  | ["gen.begin", _, _] => ({}, [])
+  | ["gen.begin", _, _] => ({ fields := st.fields }, [])
+  | ["gen.mig.begin", _, _] => ({ fields := st.fields, mig := true }, [])
+  | ["gen.migrate", name, o, _] => (st, if o == "ok" then [] else [s!"MON\t{seq}\tmigration_runs:{name}\t{o}"])
+  | ["gen.field", mod, fld, kind, n, why] => ({ st with fields := (mod, fld, kind, n.toNat?.getD 0, why) :: st.fields }, [])
+  | ["gen.list", mod, path, n, _, _, missing, why] =>
+    (st, (if n.toNat? == some 0 && why == "-" then [s!"BAD\t{seq}\tpopulation: record list {mod}.{path} is empty in every exported state"] else []) ++
+         (if missing != "-" then [s!"BAD\t{seq}\tpopulation: id fields {missing} of {mod}.{path} are equal in every record of every exported state"] else []))
+  | ["gen.msgtype", url, ok, _, why] =>
+    (st, if ok.toNat? == some 0 && why == "-" then
+      [s!"BAD\t{seq}\tcontinuation: no operation of message type {url} was accepted on the original chain after the export"] else [])
+  | ["gen.coverage", mod] =>
+    match modules.find? (fun m => m.name == mod) with
+    | none => (st, [s!"BAD\t{seq}\tunknown module {mod}"])
+    | some m =>
+      let norm (s : String) : String := String.ofList ((s.toList.filter fun c => c != '_').map Char.toLower)
+      (st, m.genFields.filterMap fun g =>
+        match st.fields.find? (fun f => f.1 == mod && f.2.1 == norm g) with
+        | none => some s!"BAD\t{seq}\tpopulation: genesis field {mod}.{g} of the regenerated table was never seen in an exported state"
+        | some f => if f.2.2.1 == "list" && f.2.2.2.1 == 0 && f.2.2.2.2 == "-" then
+                      some s!"BAD\t{seq}\tpopulation: exported list {mod}.{g} is empty in every state" else none)
   | "gen.import" :: o :: mod :: _ => (st, if o = "ok" then [] else [s!"MON\t{seq}\timport_accepts_export:{mod}"])
   | "gen.validate" :: mod :: o :: _ => (st, if o = "ok" then [] else [s!"MON\t{seq}\timport_accepts_export:{mod}"])
   | ["gen.kv", side, mod, k, v] =>
@@ -164,10 +198,12 @@ def handle (st : St) (seq : String) (f : List String) : St × List String :=
     | none => (st, [s!"BAD\t{seq}\tunknown module {mod}"])
     | some m => ({ st with seen := (mod, byte) :: st.seen }, checkModule st seq m byte)
   | ["gen.params", mod] => (st, checkParams st seq mod)
-  | ["gen.op", name, ra, rb] => (st, if ra == rb then [] else [s!"MON\t{seq}\tcontinuation_equal:{name}\tA={ra}\tB={rb}"])
+  | ["gen.op", name, ra, rb] =>
+    (st, if ra == rb then [] else [s!"MON\t{seq}\t{if st.mig then "migration_continuation" else "continuation_equal"}:{name}\tA={ra}\tB={rb}"])
   | ["gen.custody", _, _, nd] => (st, if nd == "0" then [] else [s!"MON\t{seq}\tcustody_roundtrip\tdiffering={nd}"])
   | ["gen.bal", _, _, _] => (st, [])
-  | ["gen.balances", _, nd] => (st, if nd == "0" then [] else [s!"MON\t{seq}\tcontinuation_equal:balances\tdiffering={nd}"])
+  | ["gen.balances", _, nd] =>
+    (st, if nd == "0" then [] else [s!"MON\t{seq}\t{if st.mig then "migration_continuation" else "continuation_equal"}:balances\tdiffering={nd}"])
   | "gen.note" :: _ => (st, [])
   | _ => (st, [s!"BAD\t{seq}\tunknown gen line"])
 
